@@ -73,7 +73,7 @@ func TestSchedules(t *testing.T) {
 		out.Flush()
 		// watchdog (real time, outside the bubble): a schedule on which the library never comes to rest - a goroutine
 		// spinning - would block synctest.Wait for ever; the schedule is reported as hung and the process restarts after it
-		wd := time.AfterFunc(time.Duration(vio.EnvInt("VERIF_HANG_S", 90))*time.Second, func() {
+		wd := time.AfterFunc(time.Duration(vio.EnvInt("VERIF_HANG_S", 60))*time.Second, func() {
 			out.Put(map[string]any{"hang": s.ID, "line": n - 1})
 			out.Flush()
 			os.Exit(3)
